@@ -13,7 +13,7 @@ META = {
     "level": "proof",
     "technique": "Coq theorems over an executable model of log/context_utils.go + custom_level.go and of zap's With/Check/WrapCore (all operation sequences over any tree of contexts; all thread counts and schedules of the Load/CAS micro-step machine) + translator tie of the atomic-operation lists + in-kernel correspondence of model, abstract spec and the real package (sequences probed through a zaptest observer core, schedule replay on the instrumented source, race-detector stress)",
     "design_ref": "DESIGN.md §4 C18",
-    "level_text": "Proof: LogCtxProofs.v shows that for every global logger and every sequence (any length) of InitLogger/ChildLogger/WithFields/SetLevel/EnableDebug/context derivations over the growing tree of contexts, a log call through any context at any level captures exactly one entry with exactly the fields accumulated on that context's holder iff the level is at or above the one most recently set or inherited (C18_seq), and that for any number of goroutines and any schedule of the Load/CompareAndSwap micro-steps of WithFields/SetLevel on a shared holder, once all have returned the logger equals the sequential application of all operations in linearisation order: initial fields followed by a permutation of all added ones, level of the last linearised SetLevel (C18_conc). Props/C18.v is closed under the global context. The model is tied to the current source by (T) regenerating the atomic-operation lists of WithFields/SetLevel from log/context_utils.go and comparing by eq_refl, and (C) running the real package on generated sequences (every context probed at every level after every step) and replaying generated schedules on the instrumented source, each observation judged inside Coq against model and spec.",
+    "level_text": "Proof: LogCtxProofs.v shows that for every global logger and every sequence (any length) of InitLogger/ChildLogger/WithFields/SetLevel/EnableDebug/context derivations over the growing tree of contexts, a log call through any context at any level captures exactly one entry with exactly the fields accumulated on that context's holder iff the level is at or above the one most recently set or inherited (C18_seq), and that for any number of goroutines and any schedule of the Load/CompareAndSwap micro-steps of WithFields/SetLevel on a shared holder, once all have returned the logger equals the sequential application of all operations in linearisation order: initial fields followed by a permutation of all added ones, level of the last linearised SetLevel (C18_conc, with program order: C18_conc_linearisable), that the retry loop is lock-free and obstruction-free (C18_conc_progress_*), and that the predicate the judge applies to the real code's final state is a consequence of these theorems (C18_judge_final_ok_sound). Props/C18.v is closed under the global context. The model is tied to the current source by (T) regenerating the atomic-operation lists of WithFields/SetLevel from log/context_utils.go and comparing by eq_refl, and (C) running the real package on generated sequences (every context probed at every level after every step) and replaying generated schedules on the instrumented source, each observation judged inside Coq against model and spec.",
     "level_note": "Trusted: Coq 8.16.1 kernel + vm_compute; the hand-written model of zap v1.25 (Logger.With/WithOptions/check, Core.With/Check/Write incl. method promotion through the embedded Core) and of context.Context value lookup, validated (not proved) by the correspondence run; the translator/instrumenter xlate_logconc and the baton-passing scheduler logsched; sequentially consistent sync/atomic; Go harness. Partial: data-race freedom and the free-running Go scheduler are exercised by the -race stress of the thorough tier, not proved. No axioms.",
 }
 
@@ -49,7 +49,11 @@ def seq_part(ctx, binp, quick):
                    {"kind": "coq_eval"}, failing_input=False)
         return None
     seen = set()
+    bad.sort(key=lambda b: (b[1] != 1, b[0]))          # concrete failing inputs first
+    has_failing = any(code == 1 for _, code in bad)
     for i, code in bad:
+        if code != 1 and has_failing:
+            continue                                    # counted in the evidence; the run fails anyway
         j = jsons[i]
         key = (L.seq_shape(j), code)
         first = key not in seen
@@ -186,6 +190,33 @@ def build_conc(ctx):
     return binc, ok_tie, tie_msg, log
 
 
+def schedule_search(ctx, binc):
+    """exhaustive enumeration of the schedules of the catalogue programs on the real code; returns
+    the shortest case whose quiescent state violates final_ok according to Coq, or None"""
+    terms, jsons, err = L.run_harness(ctx, binc, "search", ["-mode", "search", "-budget", 12], timeout=600)
+    if err or not jsons:
+        ctx.cov["schedule_search"] = {"error": (err or "no output")[-500:]}
+        return None
+    explored = jsons[0].get("explored", 0)
+    cand = [(t, j) for t, j in zip(terms, jsons) if j["kind"] == "search"]
+    info = {"complete_schedules_explored": explored, "budget_steps": 12, "candidates": len(cand)}
+    ctx.cov["schedule_search"] = info
+    if not cand:
+        ctx.log("schedule search: %d complete schedules of the catalogue explored, no lost update" % explored)
+        return None
+    bad, _, err = ctx.judge_cases(L.HEADER, "sc_case", "sc_judge", [t for t, _ in cand], shard=50, tag="search")
+    if err:
+        info["error"] = err[-500:]
+        return None
+    ones = [k for k, code in bad if code == 1]
+    info["violations"] = len(ones)
+    ctx.log("schedule search: %d complete schedules explored, %d violate the specification" % (explored, len(ones)))
+    if not ones:
+        return None
+    j = cand[ones[0]][1]                       # the harness orders candidates by schedule length
+    return j
+
+
 def conc_part(ctx, quick):
     binc, ok_tie, tie_msg, log = build_conc(ctx)
     if not binc:
@@ -217,30 +248,52 @@ def conc_part(ctx, quick):
         ctx.report({"unchecked": "in-kernel evaluation of the schedule replay", "detail": err},
                    {"kind": "coq_eval"}, failing_input=False)
         return
-    seen = set()
-    for i, code in bad:
-        j = jsons[i]
-        first = code not in seen
-        seen.add(code)
-        if first and code == 1:
-            j = minimise_conc(ctx, binc, j)
-        rep = {"case": {"init": j["init"], "progs": j["progs"], "sched": j["sched"], "observed": j["obs"],
-                        "all_returned": j["done"]},
+    bad.sort(key=lambda b: (b[1] != 1, b[0]))          # concrete failing inputs get the replay slots
+    ones = [i for i, code in bad if code == 1]
+    twos = [i for i, code in bad if code != 1]
+
+    def conc_report(j, code, extra=None):
+        rep = {"case": {"init": j["init"], "progs": j["progs"], "sched": j["sched"],
+                        "observed": j.get("obs", j.get("final")), "all_returned": j["done"]},
                "observed_note": "the shared logger probed after every step of the schedule (one atomic "
-                                "operation of goroutine sched[i] per step): fields, mask (bit i = entry at Debug+i)",
+                                "operation of goroutine sched[i] per step; final-state cases: only after all "
+                                "goroutines returned): fields, mask (bit i = entry at Debug+i)",
                "expected_spec": "when all goroutines have returned: initial fields followed by a permutation of "
                                 "all added fields; level of a SetLevel that is last in its goroutine "
-                                "(final_ok of LogCtxJudge.v, consequence of C18_conc)",
+                                "(final_ok of LogCtxJudge.v, proved a consequence of C18_conc: C18_judge_final_ok_sound)",
                "translator_tie": tie_msg.splitlines()[0],
                "verdict": {1: "a field or a level change was lost",
                            2: "final state satisfies the specification but the step-by-step observations "
                               "differ from the Coq machine"}[code],
                "replay_cmd": "./check C18 --replay <this file>"}
+        if j.get("judge") == "final":
+            rep["case"]["judge"] = "final"
+        rep.update(extra or {})
         L.report_capped(ctx, rep, {"kind": "conc", "shape": "lost_update" if code == 1 else "model_mismatch"},
                         code == 1, 5)
-    if not ok_tie and not any(code == 1 for _, code in bad):
-        ctx.report({"unchecked": "translator tie (T): gen_withfields = prog_withfields, gen_setlevel = prog_setlevel",
-                    "detail": tie_msg}, {"kind": "tie"}, failing_input=False)
+
+    for k, i in enumerate(ones):
+        j = minimise_conc(ctx, binc, jsons[i]) if k == 0 else jsons[i]
+        conc_report(j, 1)
+    found = None
+    if not ones and (twos or not ok_tie):
+        # the step structure of the code differs from the model's programs (or the tie is broken):
+        # look for a concrete lost update on the real code, judging quiescent states only
+        found = schedule_search(ctx, binc)
+        if found:
+            conc_report(found, 1, {"found_by": "exhaustive schedule search over the 2-goroutine catalogue "
+                                               "(final state judged with final_ok); %d complete schedules explored; "
+                                               "%d step-by-step disagreements with the Coq machine in the replay run"
+                                               % (found.get("explored", 0), len(twos))})
+    if not ones and not found:
+        for i in twos[:2]:
+            conc_report(jsons[i], 2)
+        for _ in twos[2:]:
+            ctx.violations.append("(not written)")
+        if not ok_tie:
+            ctx.report({"unchecked": "translator tie (T): gen_withfields = prog_withfields, gen_setlevel = prog_setlevel",
+                        "detail": tie_msg, "schedule_search": ctx.cov.get("schedule_search")},
+                       {"kind": "tie"}, failing_input=False)
     ctx.cov.update({
         "conc_cases": len(jsons),
         "conc_steps": sum(len(j["sched"]) for j in jsons),
@@ -414,16 +467,21 @@ def replay(ctx, path):
         with open(p, "w") as f:
             f.write(json.dumps({"kind": "replay", "init": case["init"], "progs": case["progs"],
                                 "prefix": case["sched"]}) + "\n")
-        terms, jsons, err = L.run_harness(ctx, binc, "replay", ["-mode", "replay", "-in", p])
+        final = case.get("judge") == "final"
+        terms, jsons, err = L.run_harness(ctx, binc, "replay", ["-mode", "replay", "-in", p] + (["-final"] if final else []))
         if err:
             print(err)
             return 2
-        bad, _, err = ctx.judge_cases(L.HEADER, "cc_case", "cc_judge", terms, shard=8, tag="replay")
+        bad, _, err = ctx.judge_cases(L.HEADER, "sc_case" if final else "cc_case",
+                                      "sc_judge" if final else "cc_judge", terms, shard=8, tag="replay")
         if err:
             print(err)
             return 2
         print("schedule executed:", jsons[0]["sched"], "all returned:", jsons[0]["done"])
-        print("shared logger after every step:", json.dumps(jsons[0]["obs"]))
+        if final:
+            print("shared logger after all goroutines returned:", json.dumps(jsons[0]["final"]))
+        else:
+            print("shared logger after every step:", json.dumps(jsons[0]["obs"]))
     elif "ops" in case:
         binp, log = ctx.build_harness("c18")
         if not binp:
